@@ -2091,6 +2091,18 @@ def check_positive_examples(ctx):
              'tok_helper_scan': 'ok'}
     if tk != wantk:
         ctx.broken('R-C16-11 self-check: verdicts on drivers/c16_positive.cpp are %s, expected %s' % (tk, wantk))
+    fv = {}
+    for f, n, v, why in formatted_length_sites(tu, [f for f in tu.functions.values() if f['q'].startswith('rkverif_c16::fmt_')]):
+        fv[f['q'].split('::')[-1]] = v
+    wantf = {'fmt_unclamped': 'bad', 'fmt_clamped': 'skip'}
+    if fv != wantf:
+        ctx.broken('R-C16-15 self-check: verdicts on drivers/c16_positive.cpp are %s, expected %s' % (fv, wantf))
+    cv = {}
+    for f, n, v, why in conversion_sites(tu, [f for f in tu.functions.values() if f['q'].startswith('rkverif_c16::conv_')]):
+        cv[f['q'].split('::')[-1]] = v
+    wantc = {'conv_bare': 'bad', 'conv_converted': 'ok', 'conv_rethrown': 'bad'}
+    if cv != wantc:
+        ctx.broken('R-C16-16 self-check: verdicts on drivers/c16_positive.cpp are %s, expected %s' % (cv, wantc))
     if tv != want:
         ctx.broken('R-C16-10 self-check: verdicts on drivers/c16_positive.cpp are %s, expected %s' % (tv, want))
 
@@ -3314,10 +3326,286 @@ def check_file_handle(ctx, tu):
         ctx.ok(R, 'xml::readXML call graph', 'no fopen in the %d functions reachable from readXML' % len(fns), tu.fn_loc(fs[0]), nontrivial=False)
 
 
+# ============================================================================================
+#  R-C16-15: the length returned by (v)snprintf is not the number of bytes in the buffer
+# ============================================================================================
+FORMATTERS = {'snprintf': (0, 1), 'vsnprintf': (0, 1)}       # (buffer argument, size argument)
+LEN_READERS = {'memcpy': (1, 2), 'memmove': (1, 2), 'fwrite': (0, None), 'write': (1, 2), 'strncpy': (1, 2), 'strndup': (0, 1)}
+
+
+def formatted_length_sites(tu, fns):
+    """[(function, use node, verdict, text)]: for every variable that receives the result of snprintf/vsnprintf into a buffer B: each place
+    that reads B with a length computed from that variable (std::string(B, n), .assign/.append(B, n), memcpy(.., B, n), fwrite(B, 1, n)).
+    'bad' when the variable is never compared against anything but 0 and never goes through min/clamp: the result is the length the text
+    would have had, which exceeds the buffer for long text.  'skip' when some comparison / min exists (not decided here)."""
+    out = []
+    for f in fns:
+        body = tu.body(f)
+        if body is None:
+            continue
+        lens = {}       # var id -> (buffer decl id, call)
+        for n in _walk_no_lambda(tu, body):
+            call = None
+            var = None
+            if n.get('kind') == 'VarDecl' and tu.kids(n):
+                e = tu.strip(tu.kids(n)[-1], casts=True)
+                if e is not None and e.get('kind') == 'CallExpr':
+                    call, var = e, n['id']
+            elif n.get('kind') == 'BinaryOperator' and n.get('opcode') == '=':
+                l, r = tu.kids(n)
+                e = tu.strip(r, casts=True)
+                if e is not None and e.get('kind') == 'CallExpr':
+                    call, var = e, tu.ref_decl(l)
+            if call is None or var is None:
+                continue
+            q = tu.sd(call).get('q', '').split('::')[-1]
+            if q not in FORMATTERS:
+                continue
+            args = tu.call_parts(call)[2]
+            if not args:
+                continue
+            b = tu.ref_decl(args[0])
+            if b is not None:
+                lens[var] = (b, call)
+        if not lens:
+            continue
+
+        def mentions(e, v):
+            return any(x.get('kind') == 'DeclRefExpr' and x.get('referencedDecl', {}).get('id') == v for x in tu.walk(e))
+
+        def bounded(v):
+            for x in _walk_no_lambda(tu, body):
+                if x.get('kind') == 'BinaryOperator' and x.get('opcode') in ('<', '<=', '>', '>='):
+                    l, r = tu.kids(x)
+                    for a, b2 in ((l, r), (r, l)):
+                        if tu.ref_decl(a) == v and tu.sd(tu.strip(b2, casts=True)).get('cv') not in ('0', '-1'):
+                            return True
+                if x.get('kind') in CALLS and tu.sd(x).get('q', '').split('::')[-1] in ('min', 'clamp') and mentions(x, v):
+                    return True
+            return False
+
+        for n in _walk_no_lambda(tu, body):
+            k = n.get('kind')
+            pairs = []
+            if k in ('CXXConstructExpr', 'CXXTemporaryObjectExpr') and re.search(r'basic_string|std::string', n.get('type', {}).get('qualType', '')):
+                a = [x for x in tu.kids(n) if x.get('kind') != 'CXXDefaultArgExpr']
+                if len(a) >= 2:
+                    pairs.append((a[0], a[1]))
+            elif k == 'CXXMemberCallExpr' and tu.sd(n).get('q', '').split('::')[-1] in ('assign', 'append', 'write', 'insert'):
+                a = tu.call_parts(n)[2]
+                for i in range(len(a) - 1):
+                    pairs.append((a[i], a[i + 1]))
+            elif k == 'CallExpr':
+                q = tu.sd(n).get('q', '').split('::')[-1]
+                if q in LEN_READERS:
+                    a = tu.call_parts(n)[2]
+                    si, ni = LEN_READERS[q]
+                    if ni is None and len(a) >= 3:
+                        pairs.append((a[0], a[1]))
+                        pairs.append((a[0], a[2]))
+                    elif ni is not None and len(a) > max(si, ni):
+                        pairs.append((a[si], a[ni]))
+            for be, ne in pairs:
+                b = tu.ref_decl(be)
+                for v, (vb, call) in lens.items():
+                    if b is not None and b == vb and mentions(ne, v):
+                        if bounded(v):
+                            out.append((f, n, 'skip', 'the length is compared / clamped somewhere in the function'))
+                        else:
+                            out.append((f, n, 'bad', '`%s` reads `%s` bytes from the buffer filled by `%s`, but that call returns the length '
+                                        'the whole text would have had, not the number of bytes stored: for text longer than the buffer '
+                                        'the read runs past its end' % (tu.show(n)[:60], tu.show(ne)[:40], tu.show(call)[:50])))
+    return out
+
+
+def check_formatted_length(ctx, tu):
+    R = 'R-C16-15'
+    ctx.describe(R, 'a length obtained from snprintf / vsnprintf is clamped to the buffer size before it is used to read the buffer '
+                    '(the functions return the untruncated length): error messages built from document text of any length stay in bounds')
+    fs = tu.fns(q='rkcommon::xml::readXML')
+    if len(fs) != 1:
+        ctx.broken('%s: readXML not found' % R)
+        return
+    fns = [f for f in reachable_fns(tu, fs[0]) if tu.fn_file(f).startswith('rkcommon/')]
+    sites = formatted_length_sites(tu, fns)
+    for f, n, v, why in sites:
+        inst = '%s %s' % (f['q'].replace('rkcommon::', ''), f['fty'])
+        if v == 'bad':
+            ctx.violation(R, inst, why, tu.loc(n), key='%s|%s|%s|formatted-length-unclamped' % (R, tu.fn_file(f), f['q'].replace('rkcommon::', '')))
+        else:
+            ctx.ok(R, inst, 'not decided here (%s)' % why, tu.loc(n), nontrivial=False)
+    if not sites:
+        ctx.ok(R, 'xml::readXML call graph', 'no buffer is read with a length taken from snprintf / vsnprintf in the %d functions reachable '
+               'from readXML' % len(fns), tu.fn_loc(fs[0]), nontrivial=False)
+
+
+# ============================================================================================
+#  R-C16-16: standard conversions that throw std::invalid_argument / std::out_of_range on document text
+# ============================================================================================
+STD_CONVERSIONS = ('stoi', 'stol', 'stoll', 'stoul', 'stoull', 'stof', 'stod', 'stold')
+CATCHES_LOGIC = ('...', 'exception', 'logic_error')
+
+
+def conversion_sites(tu, fns):
+    """[(function, call, verdict, text)] for each call of std::sto* in the functions: 'ok' inside a try block with a handler for
+    `...`, std::exception or std::logic_error (or both std::invalid_argument and std::out_of_range) that does not rethrow the same
+    exception; 'bad' otherwise (the argument is text, anything but a literal)."""
+    out = []
+    for f in fns:
+        body = tu.body(f)
+        if body is None:
+            continue
+        for n in _walk_no_lambda(tu, body):
+            if n.get('kind') != 'CallExpr':
+                continue
+            q = tu.sd(n).get('q', '')
+            if not (q.startswith('std::') and q.split('::')[-1] in STD_CONVERSIONS):
+                continue
+            args = tu.call_parts(n)[2]
+            if args and all(x.get('kind') in ('StringLiteral', 'ImplicitCastExpr', 'CXXConstructExpr', 'MaterializeTemporaryExpr',
+                                              'CXXBindTemporaryExpr', 'CXXDefaultArgExpr') for x in tu.walk(args[0])):
+                out.append((f, n, 'ok', 'argument is a literal'))
+                continue
+            cur, prot = n, False
+            while cur is not None and cur is not body and not prot:
+                par = tu.par(cur)
+                if par is not None and par.get('kind') == 'CXXTryStmt' and tu.kids(par) and tu.kids(par)[0] is cur:
+                    seen = set()
+                    for h in tu.kids(par)[1:]:
+                        hk = tu.kids(h)
+                        ty = '...'
+                        if hk and hk[0].get('kind') == 'VarDecl':
+                            ty = hk[0].get('type', {}).get('qualType', '')
+                        rethrows = any(x.get('kind') == 'CXXThrowExpr' and not tu.kids(x) for x in tu.walk(h))
+                        for c in CATCHES_LOGIC + ('invalid_argument', 'out_of_range'):
+                            if (c == '...' and ty == '...') or (c != '...' and re.search(r'\b%s\b' % c, ty)):
+                                if not rethrows:
+                                    seen.add(c)
+                    if seen & set(CATCHES_LOGIC) or {'invalid_argument', 'out_of_range'} <= seen:
+                        prot = True
+                cur = par
+            if prot:
+                out.append((f, n, 'ok', 'inside a try block whose handler converts std::invalid_argument / std::out_of_range'))
+            else:
+                out.append((f, n, 'bad', '`%s` throws std::invalid_argument for text that does not start with a number and std::out_of_range for '
+                            'one that does not fit - both are std::logic_error, not std::runtime_error - and no enclosing try block in this '
+                            'function converts them: a document with such text makes readXML throw a foreign exception type (and skip the '
+                            'handler that closes the file)' % tu.show(n)[:60]))
+    return out
+
+
+def check_foreign_exceptions(ctx, tu):
+    R = 'R-C16-16'
+    ctx.describe(R, 'no std::sto* conversion of document text in the parser call graph outside a try block that converts '
+                    'std::invalid_argument / std::out_of_range: the only exception type readXML lets out is std::runtime_error')
+    fs = tu.fns(q='rkcommon::xml::readXML')
+    if len(fs) != 1:
+        ctx.broken('%s: readXML not found' % R)
+        return
+    fns = [f for f in reachable_fns(tu, fs[0]) if tu.fn_file(f).startswith('rkcommon/')]
+    sites = conversion_sites(tu, fns)
+    for f, n, v, why in sites:
+        inst = '%s %s' % (f['q'].replace('rkcommon::', ''), f['fty'])
+        if v == 'bad':
+            ctx.violation(R, inst, why, tu.loc(n), key='%s|%s|%s|foreign-exception:%s' % (
+                R, tu.fn_file(f), f['q'].replace('rkcommon::', ''), tu.sd(n).get('q', '').split('::')[-1]))
+        else:
+            ctx.ok(R, inst, why, tu.loc(n))
+    if not sites:
+        ctx.ok(R, 'xml::readXML call graph', 'no std::sto* conversion in the %d functions reachable from readXML' % len(fns), tu.fn_loc(fs[0]),
+               nontrivial=False)
+
+
+# ============================================================================================
+#  R-C16-17: every document readXML returns was read from the file in this call
+# ============================================================================================
+FILE_READERS = ('fread', 'fread_unlocked', 'fgets', 'fgetc', 'getc', 'getline', 'read', 'pread', 'mmap')
+
+
+def check_reads_file(ctx, tu):
+    R = 'R-C16-17'
+    ctx.describe(R, 'every return of readXML is reached only through a read of the file in this very call (fread, directly or in a helper): '
+                    'the document depends on the bytes the file holds now, not on what an earlier call saw under the same name')
+    fs = tu.fns(q='rkcommon::xml::readXML')
+    if len(fs) != 1 or tu.cfg(fs[0]) is None:
+        ctx.broken('%s: readXML not found' % R)
+        return
+    f = fs[0]
+    fns = {x['id']: x for x in reachable_fns(tu, f) if tu.fn_file(x).startswith('rkcommon/')}
+    direct = set()
+    calls = {}
+    for fid, x in fns.items():
+        b = tu.body(x)
+        if b is None:
+            continue
+        for n in tu.walk(b):
+            if n.get('kind') in CALLS:
+                q = tu.sd(n).get('q', '')
+                if q.split('::')[-1] in FILE_READERS and ('::' not in q or q.startswith('std::')):
+                    direct.add(fid)
+                if 'basic_istream' in q or 'basic_ifstream' in q or 'basic_filebuf' in q or 'istreambuf_iterator' in q:
+                    direct.add(fid)
+                cf = tu.callee_fn(n)
+                if cf is not None and cf['id'] in fns:
+                    calls.setdefault(fid, set()).add(cf['id'])
+    readers = set(direct)
+    ch = True
+    while ch:
+        ch = False
+        for fid, cs in calls.items():
+            if fid not in readers and cs & readers:
+                readers.add(fid)
+                ch = True
+    if f['id'] not in readers:
+        ctx.undecided(R, 'xml::readXML', 'no recognised read of the file (fread, fgets, getc, read, an input stream) is reachable from readXML',
+                      tu.fn_loc(f))
+        return
+    bad = []
+    g = tu.cfg(f)
+
+    def is_read(x):
+        if x.get('kind') not in CALLS:
+            return False
+        q = tu.sd(x).get('q', '')
+        if q.split('::')[-1] in FILE_READERS and ('::' not in q or q.startswith('std::')):
+            return True
+        if 'basic_istream' in q or 'basic_ifstream' in q or 'istreambuf_iterator' in q:
+            return True
+        cf = tu.callee_fn(x)
+        return cf is not None and cf['id'] in readers and cf['id'] != f['id']
+
+    def transfer(blk, i, el, st):
+        if el[0] != 'S':
+            return [st]
+        x = tu.node(el[1])
+        if x is None:
+            return [st]
+        if is_read(x):
+            return [True]
+        if x.get('kind') == 'ReturnStmt' and not st:
+            bad.append(x)
+        return [st]
+    try:
+        g.explore([False], transfer, None)
+    except RuntimeError:
+        ctx.undecided(R, 'xml::readXML', 'state explosion', tu.fn_loc(f))
+        return
+    if bad:
+        ctx.violation(R, 'xml::readXML', 'the return at %s is reached on a path that never reads the file in this call (the only reads, in %s, '
+                      'are bypassed): the document handed back is not computed from the bytes the file holds now - a file rewritten '
+                      'under the same name is answered with stale contents, a now malformed one is accepted' % (
+                          tu.loc(bad[0]), ', '.join(sorted(fns[i]['q'].split('::')[-1] for i in direct))), tu.loc(bad[0]),
+                      key='%s|%s|readXML|return-without-reading-the-file' % (R, XML_FILE))
+    else:
+        ctx.ok(R, 'xml::readXML', 'every return is dominated by a read of the file (%s)' % ', '.join(sorted(fns[i]['q'].split('::')[-1] for i in direct)),
+               tu.fn_loc(f))
+
+
 def run(ctx):
     ctx.assume('the buffer handed to parseXML is NUL-terminated (established by R-C16-3 for readXML)')
     ctx.assume('library character predicates (isalpha, isdigit, isspace) return false for the NUL byte')
-    ctx.assume('exceptions thrown by the C++ standard library itself (std::bad_alloc, std::length_error) are outside the check')
+    ctx.assume('exceptions thrown by the C++ standard library for resource exhaustion (std::bad_alloc, std::length_error) are outside the check; '
+               'std::sto* conversions of document text are inside (R-C16-16)')
     tu = ctx.front.parse(XML_FILE, 'TBB')
     eng = check_cursor(ctx, tu)
     if eng is not None:
@@ -3330,6 +3618,9 @@ def run(ctx):
     check_tokens_and_order(ctx, tu)
     check_comment_repetition(ctx, tu)
     check_file_handle(ctx, tu)
+    check_formatted_length(ctx, tu)
+    check_foreign_exceptions(ctx, tu)
+    check_reads_file(ctx, tu)
     check_positive_examples(ctx)
     from rkstatic import selftest
     selftest.run(ctx)
